@@ -345,7 +345,7 @@ func init() {
 		ID:      "C14",
 		PkgDirs: []string{"internal/session", "cmd/thruserv"},
 		Level:   "other",
-		Explanation: "session.Store (Create/GetByJoinCode/Delete/Count) is executed symbolically for every history of 4 (quick) / 5 (thorough) operations over up to 3 sessions with crypto/rand as symbolic bytes and time.Now as a symbolic non-decreasing clock: live join codes pairwise distinct, lookup succeeds exactly from creation until deletion or expiry, never afterwards, ttl 0 never expires. connLimiter and tokenBucket (cmd/thruserv) are checked by one-step induction from an arbitrary state satisfying the representation invariant (0 <= inUse <= limit, 0 <= tokens <= burst) with float64 as SMT floating point. C14.release-once: over the CFG of cmd/thruserv.handleWebSocket (SMT reachability query) no path leaves one call/defer of (*connLimiter).Release and reaches another without an Acquire in between, so the balanced-caller premise of the limiter induction holds for its only caller.",
+		Explanation: "session.Store (Create/GetByJoinCode/Delete/Count) is executed symbolically for every history of 4 (quick) / 5 (thorough) operations over up to 3 sessions with crypto/rand as symbolic bytes and time.Now as a symbolic non-decreasing clock: live join codes pairwise distinct, lookup succeeds exactly from creation until deletion or expiry, never afterwards, ttl 0 never expires. connLimiter and tokenBucket (cmd/thruserv) are checked by one-step induction from an arbitrary state satisfying the representation invariant (0 <= inUse <= limit, 0 <= tokens <= burst) with float64 as SMT floating point. C14.release-once: over the CFG of cmd/thruserv.handleWebSocket (SMT reachability query) no path leaves one call/defer of (*connLimiter).Release and reaches another without an Acquire in between, and every path from the success edge of Acquire to a return calls or defers Release, so the balanced-caller premise of the limiter induction holds for its only caller.",
 		Rule:        "assertion sites: vAssert lines of H_C14_*",
 		Assumptions: []string{"fresh 128-bit session ids do not collide (generateSessionID stubbed to distinct ids)", "Duration.Seconds over-approximated: any finite seconds >= 0 for a non-negative duration, 0 for 0", "the check-then-act sequences of the HTTP/WebSocket handlers under concurrent arrivals are outside (closures over net/http); of the handlers only the Acquire/Release pairing of handleWebSocket is decided, flow-insensitively in path feasibility (every CFG path counts)", "connLimiter counter far below 2^63"},
 		Bounds: func(tier string) string { return "store histories of 4 (quick) / 5 (thorough) operations, <= 3 sessions; limiter steps from arbitrary valid states" },
@@ -425,7 +425,22 @@ func init() {
 			ok, inc, _ := checkMustPassAfter(ld.Prog, fnName, isRelease, isAcquire, isRelease, ev, "cfg:handleWebSocket release-once")
 			if ok {
 				ev["extra_discharged"] = 1
-				return nil
+				// leak direction: every path from the success edge of Acquire to a return calls or defers Release
+				ev["extra_obligations"] = 2
+				ok2, inc2, wit2 := checkReleaseAfterAcquire(ld.Prog, fnName, isAcquire, isRelease, ev, "cfg:handleWebSocket release-after-acquire")
+				if ok2 {
+					ev["extra_discharged"] = 2
+					return nil
+				}
+				if inc2 != "" {
+					fmt.Printf("INCONCLUSIVE property=C14 obligation=C14.release-after-acquire %s\n", inc2)
+					return nil
+				}
+				w2 := wit2
+				return []Finding{{Obligation: "C14.release-after-acquire", Kind: "cfg", Msg: "a connection slot acquired in handleWebSocket is not released on some path (the limit is reached with fewer live connections than configured)", Replay: func(dir string) (bool, string) {
+					os.WriteFile(dir+"/witness.txt", []byte(w2+"\n"), 0o644)
+					return true, w2
+				}}}
 			}
 			if inc != "" {
 				fmt.Printf("INCONCLUSIVE property=C14 obligation=C14.release-once %s\n", inc)
